@@ -94,6 +94,22 @@ SameSet(ref, got) == Lost(ref, got) = {} /\ Gained(ref, got) = {}
 OnlyExpiredLost(ref, got, expd) == Gained(ref, got) = {} /\ Lost(ref, got) # {} /\ Lost(ref, got) \subseteq expd
 
 -----------------------------------------------------------------------------
+(* When is a packet "expired"?  Not by asking the library: by the lifetime rule of C14 ("each message has
+   a lifetime fixed by its kind: never treated as expired before that lifetime has passed and always once
+   twice that lifetime, plus a few seconds' grace, has passed"; MsgStore.tla: NotYetDue / MustBeExp).  Inputs:
+   the age of the packet by the clock of the snapshot (clock - stamp) and its lifetime (Never = -1; for a
+   sync-cycle countdown the lifetime is the one carried in its payload, whatever its verb).  Between the
+   two thresholds the rule leaves the answer open, and so does C16c.  Shared with SnapshotTrace (ms). *)
+Never == -1
+Grace == 3000
+MustBeExp(age, life) == life # Never /\ age >= 2 * life + Grace
+NotYetDue(age, life) == life = Never \/ age < life
+(* "nor (unless asked for) expired packets", for a snapshot given as parallel sequences of ages / lifetimes *)
+PastLife(ages, lives) == {i \in 1..Len(ages) : MustBeExp(ages[i], lives[i])}
+(* a recorded library verdict that the rule allows *)
+VerdictAllowed(flag, age, life) == (MustBeExp(age, life) => flag) /\ (NotYetDue(age, life) => ~flag)
+
+-----------------------------------------------------------------------------
 VARIABLES g1, n, phase, ie, s1, g2, s2, s3, s4, h
 vars == <<g1, n, phase, ie, s1, g2, s2, s3, s4, h>>
 
